@@ -49,6 +49,15 @@ def joinOne (g : Group) : List Group → List Group
 /-- `join_groupbys`: consecutive groups with the same key (across chunk borders) are concatenated -/
 def joinGroups (l : List Group) : List Group := l.foldr joinOne []
 
+/-- `get_ragged_changes` (change-point detection on a `str`-typed, ragged key column) for row `a` and the
+flat data behind it, `b ++ after` (`b` = the next row): the positions of row `a` shifted by `len a` — clipped to
+the last data position — are compared with row `a`, and a change of the row length is a change.
+`useLen = false` is the rule without the length comparison. -/
+def raggedChange (useLen : Bool) (a b after : List Nat) : Bool :=
+  let rest := b ++ after
+  (useLen && a.length != b.length) ||
+    (List.range a.length).any (fun j => a.getD j 0 != rest.getD j (rest.getLast?.getD 0))
+
 /-- the grouped stream of a chunked data stream -/
 def groupsOfChunks (chunks : List (List (Name × Nat))) : List Group :=
   joinGroups (chunks.map chunkGroups).flatten
